@@ -78,7 +78,7 @@ pub enum XcpError {
 pub trait StatusUpdater {
     fn send(&self, update: StatusUpdate, Tracked(w): Tracked<&mut World>) -> (r: Result<()>)
         ensures
-            fr_chan(*old(w), *final(w)),
+            fr_chan(*old(w), *final(w)), final(w).faults >= old(w).faults,
             match r {
                 Ok(_) => {
                     &&& final(w).faults == old(w).faults
